@@ -726,6 +726,15 @@ pub fn k_padded() -> Class {
     Class { name: "Kpadded", leaves, unary, binary, ternary: vec![] }
 }
 
+/// memoization around recovery (C11): a recovery that fires inside a memoized parser files "the error the parse
+/// would have reported", which includes a failure pending from an earlier alternative
+pub fn k_memo_rec() -> Class {
+    let leaves = vec![Just('a'), Just('b'), JustSeq('a', 'b'), Any];
+    let unary = vec![u1(|a| Some(OrNot(a)))];
+    let binary = vec![u2(|a, c| Some(Then(a, c))), u2(|a, c| Some(Or(a, c))), u2(|a, f| Some(Recover(a, f)))];
+    Class { name: "Kmemorec", leaves, unary, binary, ternary: vec![] }
+}
+
 /// sharing class (C11): bodies that use ONE parser value (`var`) several times - at the same position after
 /// backtracking, under map_err, inside a recovery strategy - so that a memoized definition is really looked up
 /// in its table (two separate memoized() nodes never share an entry).  `defs` x bodies with >= 2 uses.
